@@ -8,13 +8,17 @@ from .extract import (Rule, CallRule, Source, ExtractionError, apply_rules, anno
 class F:
     def __init__(self, name, rel, sig, c, props, nth=0, within=None, dflt="", ret_ref=False,
                  ctor=None, rules=(), pre=(), harness=None, enforce=True, rec=False,
-                 body_override=None, note="", must_fire=(), extra_replace=(), no_replace=()):
+                 body_override=None, note="", must_fire=(), extra_replace=(), no_replace=(),
+                 defaulted=None, default_body=None):
         self.name, self.rel, self.sig, self.c, self.props = name, rel, sig, c, list(props)
         self.nth, self.within, self.dflt, self.ret_ref = nth, within, dflt, ret_ref
         self.ctor, self.rules, self.pre = ctor, list(rules), list(pre)
         self.harness, self.enforce, self.rec = harness, enforce, rec
         self.note, self.must_fire = note, list(must_fire)
         self.extra_replace, self.no_replace = list(extra_replace), list(no_replace)
+        # a special member that the source may declare `= default`: then default_body (the synthesised memberwise
+        # operation, rule D1/D3) is verified instead of an extracted body
+        self.defaulted, self.default_body = defaulted, default_body
         self.loops = []
         self.text = None
         self.line = None
@@ -50,9 +54,24 @@ class Unit:
 
     def render_function(self, f):
         src = self.src
+        fired = {}
+        if f.defaulted and re.search(f.defaulted, src.text(f.rel)):
+            m = re.search(f.defaulted, src.text(f.rel))
+            d = {"header": " ".join(m.group(0).split()), "quals": [], "init": "", "body": f.default_body,
+                 "line": src.text(f.rel)[:m.start()].count("\n") + 1}
+            fired["D1.defaulted-member-synthesised"] = 1
+            self.static_facts.append("%s is declared `%s` in %s: the synthesised memberwise operation is verified" % (f.name, d["header"], f.rel))
+            f.line = d["line"]
+            text = apply_rules(d["body"], [], fired)
+            f.loops = []
+            for k, v in fired.items():
+                self.fired[k] = self.fired.get(k, 0) + v
+            f.text = text
+            f.is_noexcept = False
+            return ("/* %s:%d  %s (synthesised) */\n#undef NITRO_DFLT\n#define NITRO_DFLT %s\n#undef NITRO_CLEANUP\n#define NITRO_CLEANUP\n"
+                    "#undef NITRO_EXC_MAP\n#define NITRO_EXC_MAP(e) (e)\n%s\n{%s}\n") % (f.rel, f.line, d["header"], f.dflt, f.c, text)
         d = src.find(f.rel, f.sig, f.nth, f.within)
         f.line = d["line"]
-        fired = {}
         body = d["body"]
         pre = ""
         if f.ctor:
